@@ -21,9 +21,11 @@ LatSpace3 ==
      e \in {N0, <<T(0, 1, 1), T(1, 2, 1)>>, <<T(1, 2, 1), T(0, 1, 1)>>, <<T(0, 1, 1), T(0, 2, 1)>>, <<T(0, 2, 1), T(1, 2, -1)>>,
             <<T(0, 1, 1)>>},
      t \in {N0, <<T(1, 2, -1)>>, <<T(0, 1, 1)>>, <<T(1, 2, 1), T(0, 1, -1)>>, <<T(0, 1, -1), T(1, 2, 1)>>}}
+\* lk = <<learned interior keypoints?, units>>: multi-unit calibrators are evaluated on ONE shared input column
 PwlSpace ==
   {[kind |-> "pwl", kp |-> k, mono |-> m, conv |-> cv, cyclic |-> cy, hasMin |-> b[1], omin |-> b[2], hasMax |-> b[3], omax |-> b[4],
-    clampMin |-> cm, clampMax |-> cx] :
+    clampMin |-> cm, clampMax |-> cx, learned |-> lk[1], units |-> lk[2]] :
+     lk \in {<<FALSE, 1>>, <<FALSE, 2>>, <<TRUE, 2>>},
      k \in {<<0, 1>>, <<0, 1, 3>>, <<0, 0, 1>>, <<2, 1, 3>>, <<0>>}, m \in {-1, 0, 1}, cv \in {-1, 0, 1}, cy \in BOOLEAN,
      b \in {<<FALSE, 0, FALSE, 1>>, <<TRUE, 0, TRUE, 1>>, <<TRUE, 1, TRUE, 0>>, <<TRUE, 1, TRUE, 1>>, <<TRUE, 0, FALSE, 1>>, <<FALSE, 0, TRUE, 1>>},
      cm \in BOOLEAN, cx \in BOOLEAN}
